@@ -326,6 +326,19 @@ def check_value(rec, L, S, d, v, key_prefix, fn, args, devs):
             rec.violation(f'{key_prefix}serialize-not-repeatable', f'{what}: serialising the same value twice gives different bytes', fn, args)
     except Exception as e:
         rec.violation(f'{key_prefix}serialize-not-repeatable', f'{what}: second serialize raised {exc_name(e)}: {e}', fn, args)
+    # the other documented ways to name the constructor: by its name as text, and the registry look-ups by id in every accepted form
+    if L.get_by_name(name) is sch:
+        try:
+            if L.serialize(name, v, boxed=True) != got:
+                rec.violation(f'{key_prefix}serialize-by-name', f'{what}: serialize(<name as str>, ...) differs from serialize(<schema object>, ...)', fn, args)
+        except Exception as e:
+            rec.violation(f'{key_prefix}serialize-by-name', f'{what}: serialize(<name as str>, ...) raised {exc_name(e)}: {e}', fn, args)
+    if not devs:
+        idb = d.id.to_bytes(4, 'big')
+        forms = {'bytes-big': L.get_by_id(idb), 'bytes-little': L.get_by_id(idb[::-1], 'little'), 'int': L.get_by_id(d.id)}
+        for form, r in forms.items():
+            if r is None or r.id != idb:
+                rec.violation(f'{key_prefix}registry:get_by_id:{form}', f'{name}: get_by_id({form}) does not return the constructor with id {idb.hex()}', fn, args)
     try:
         bare = L.serialize(sch, v, boxed=False)
         if bare != want[4:]:
